@@ -718,6 +718,10 @@ def root_local(fn, operand):
             l, path = rv[1][0], list(rv[1][1:]) + path
         elif rv[0] == "use" and rv[1][0] in ("c", "m"):
             l, path = rv[1][1][0], list(rv[1][1][1:]) + path
+        elif rv[0] == "call" and rv[1]["args"] and rv[1]["args"][0][0] != "k" and call_name_matches(
+                rv[1], r"ops::Deref(Mut)?>?::deref(_mut)?$|::as_(mut_)?slice$|::as_mut$|::as_ref$|borrow::Borrow(Mut)?>?::borrow(_mut)?$"):
+            a = rv[1]["args"][0][1]
+            l, path = a[0], list(a[1:]) + path
         else:
             break
     return l, [p for p in path if p != "*"]
